@@ -69,4 +69,64 @@ theorem completed_res (o : Outcome) (r i : Bool) (tk : Option (List Nat)) (c : O
     (completed o r i tk c).res = .done o ∧ (completed o r i tk c).resumed = r := by
   unfold completed; split <;> simp
 
+/-! helpers for the assembled negotiation -/
+open Gen in
+theorem select_none_iff (ids sup : List Nat) (ok : SuiteRow → Bool) :
+    selectCipherSuite ids sup ok = none ↔
+      ∀ x ∈ ids, ∀ rx, lookup implemented x = some rx → (ok rx && sup.contains x) = false := by
+  induction ids with
+  | nil => simp [selectCipherSuite]
+  | cons id rest ih =>
+    simp only [selectCipherSuite, List.mem_cons, forall_eq_or_imp]
+    cases hl : lookup implemented id with
+    | none => simp [ih]
+    | some row =>
+      simp only [Option.some.injEq, forall_eq']
+      by_cases hq : (ok row && sup.contains id) = true
+      · simp only [hq, if_true, reduceCtorEq, false_iff]
+        intro hh; exact absurd hh.1 (by simp)
+      · have hq' : (ok row && sup.contains id) = false := by simpa using hq
+        simp only [hq', Bool.false_eq_true, if_false, true_and]
+        exact ih
+
+theorem mutualVersion_nonempty {sv cv : List Nat} {v : Nat} (h : mutualVersion sv cv = some v) : cv.isEmpty = false := by
+  have := List.mem_of_find?_eq_some h
+  cases cv with
+  | nil => simp at this
+  | cons _ _ => rfl
+
+theorem configVersions_convex (table : List Nat) (minV maxV lo hi w : Nat)
+    (hlo : lo ∈ configVersions table minV maxV) (hhi : hi ∈ configVersions table minV maxV)
+    (hw : w ∈ table) (h1 : lo ≤ w) (h2 : w ≤ hi) : w ∈ configVersions table minV maxV := by
+  simp only [configVersions, List.mem_filter, Bool.and_eq_true, Bool.not_eq_true', Bool.and_eq_false_iff,
+    bne_eq_false_iff_eq, decide_eq_false_iff_not, Nat.not_lt] at *
+  refine ⟨hw, ?_, ?_⟩
+  · rcases hlo.2.1 with h | h
+    · exact Or.inl h
+    · exact Or.inr (by omega)
+  · rcases hhi.2.2 with h | h
+    · exact Or.inl h
+    · exact Or.inr (by omega)
+
+theorem configVersions_sub (table : List Nat) (minV maxV w : Nat) (h : w ∈ configVersions table minV maxV) : w ∈ table :=
+  (List.mem_filter.mp h).1
+
+theorem maxSupported_mem {l : List Nat} {v : Nat} (h : v ∈ l) : maxSupported l ∈ l := by
+  cases l with
+  | nil => simp at h
+  | cons x t => simp [maxSupported]
+
+theorem clientAborts_lt {cliMax v : Nat} {seen : Canary} (h : clientAborts cliMax v seen = true) :
+    v < cliMax ∧ seen ≠ .none := by
+  unfold clientAborts at h
+  simp only [VersionTLS13, VersionTLS12, VersionTLS11, Bool.or_eq_true, Bool.and_eq_true, beq_iff_eq,
+    ] at h
+  rcases h with ⟨⟨h1, h2⟩, h3⟩ | ⟨⟨h1, h2⟩, h3⟩
+  · have h2' := of_decide_eq_true h2
+    refine ⟨by omega, ?_⟩
+    rcases h3 with h3 | h3 <;> (rw [h3]; simp)
+  · have h2' := of_decide_eq_true h2
+    refine ⟨by omega, ?_⟩
+    rw [h3]; simp
+
 end ZV.C24
